@@ -151,8 +151,37 @@ Theorem C16_count :
     tokenize_all lower ctx fuel b = Ok (toks, fin) -> length toks <= length b.
 Proof. exact count. Qed.
 
+(* T4, key lemma: cutting valid UTF-8 at two positions that are adjacent to an ASCII byte (or are an end of the
+   string) leaves a valid piece *)
+Definition adjacent_to_ascii (b : list N) (p : nat) : Prop :=
+  p = 0 \/ length b <= p
+  \/ (exists c, nth_error b p = Some c /\ (c < 128)%N)
+  \/ (exists c, nth_error b (p - 1) = Some c /\ (c < 128)%N /\ 1 <= p).
+
+Theorem C16_utf8_cut :
+  forall (b : list N) (p q : nat),
+    utf8_valid b = true -> adjacent_to_ascii b p -> adjacent_to_ascii b q -> p <= q ->
+    utf8_valid (bytes_between b p q) = true.
+Proof. exact utf8_valid_sub. Qed.
+
+(* T4: when the input is valid UTF-8 and the driver returns normally, no accessor failed: for every token the raw
+   bytes are valid UTF-8 (raw_as_string), text() and tag_name() are not Err, no tag_attr() call is Err; and next()
+   never returned Err (end code 1).  Every span end the tokenizer produces (token boundaries, data span, attribute
+   key and value spans) is adjacent to an ASCII byte or is an end of the input: next_bnd in RIO.HtmlTokProofs. *)
+Definition accessors_ok (t : tok_obs) : Prop :=
+  utf8_valid (o_raw t) = true /\ o_text t <> RErr /\ o_name t <> RErr /\ Forall (fun a => a <> RErr) (o_attrs t).
+
+Theorem C16_accessors :
+  forall (lower : str -> str) (ctx : str) (fuel : nat) (b : str) (toks : list tok_obs) (fin : final_obs),
+    lower_is_ascii_on_raw_names lower -> utf8_valid b = true ->
+    tokenize_all lower ctx fuel b = Ok (toks, fin) ->
+    Forall accessors_ok toks /\ f_end fin <> 1%N.
+Proof. exact accessors. Qed.
+
 Print Assumptions C16_lossless.
 Print Assumptions C16_stable.
 Print Assumptions C16_total.
 Print Assumptions C16_next_total.
 Print Assumptions C16_count.
+Print Assumptions C16_utf8_cut.
+Print Assumptions C16_accessors.
